@@ -108,3 +108,23 @@ def radd_spec(C, self, bs):
 contract('bits.Bits.__radd__', shapes=_operand_shapes(SELF_STATES, [('str',), ('bytes',)]),
          props={'C01', 'C08'}, kind='public',
          note="t + s for a promotable t: promote(t) followed by bits(s), class of the bitstring operand")(radd_spec)
+
+
+# ---- iteration -------------------------------------------------------------------------------------------------
+from pyvc.interp import SeqVal
+
+
+def _iter_spec(C, self):
+    V = spec.store_bits(self) if self.cls.name == 'BitStore' else bits(self)
+    b = V.bit
+    return ('gen', [SeqVal(V.n, lambda j: (b(j) if isinstance(b(j), bool) else sym.mk_bool(sym._b(b(j)))))])
+
+
+from .bitstore import _store_shapes
+contract('bitstore.BitStore.__iter__', shapes=_store_shapes(), props={'C01', 'C08'}, kind='public',
+         note="iterating a store yields exactly its len logical bits, in order (uniform-map loop: one yield per index)")(_iter_spec)
+contract('bits.Bits.__iter__', shapes=_self_shapes(), props={'C01', 'C08'}, kind='public',
+         note="iter(s) yields exactly the bits of s, in order, for every class and store state")(_iter_spec)
+from pyvc.contract import REGISTRY as _R
+_R['bitstore.BitStore.__iter__'].inline = True     # generator contracts are not substituted at call sites
+_R['bits.Bits.__iter__'].inline = True
